@@ -60,3 +60,49 @@ Example C10_premises_satisfiable :
   (decomposition (exI 2) exP exW /\ constraints_covered (f_base (exI 2)) exP) /\ exists a, sat a (encode_kfd (exI 2)).
 Proof. exact (conj ex_decomposition ex_lp_feasible_2). Qed.
 Print Assumptions C10_premises_satisfiable.
+
+(* ---- audit: instances of exactly the hypotheses ---- *)
+(* C10_constraint_realised_in_one_layer with a real constraint ([(0,1); (1,3)] of the diamond, coverage 1, k = 2) *)
+Example C10_constraint_premises_hold : exists a : var -> Q,
+  Forall (sat_col a) (base_cols (f_base (exI 2))) /\ Forall (sat_row a) (base_rows (f_base (exI 2))) /\
+  nth_error (p_cons (f_base (exI 2))) 0 = Some [(0, 1); (1, 3)]%N /\
+  exists i, In i (layers 2) /\
+    (cons_length (f_base (exI 2)) [(0, 1); (1, 3)]%N * p_cov (f_base (exI 2)) <=
+     sumq (fun e => elen (f_base (exI 2)) e * a (Edge (fst e) (snd e) i)) [(0, 1); (1, 3)]%N)%Q.
+Proof.
+  destruct ex_lp_feasible_2 as (a & [Hc Hr]). exists a. unfold encode_kfd in Hc, Hr. cbn [cols rows] in Hc, Hr. rewrite Forall_app in Hc, Hr.
+  destruct Hc as [Hc _]. destruct Hr as [Hr _].
+  split; [exact Hc|]. split; [exact Hr|]. split; [reflexivity|].
+  exact (C10_constraint_realised_in_one_layer (f_base (exI 2)) a Hc Hr 0%nat _ eq_refl).
+Qed.
+Print Assumptions C10_constraint_premises_hold.
+
+(* C10_ignored_edge_has_no_influence: ignore (0,1) of the diamond and change its flow from 2 to 7: the premise holds, the LPs are equal *)
+Definition exIgn (f01 : Q) : kfd_inst :=
+  {| f_base := exB 2; f_flow := [((0, 1), f01); ((0, 2), 3%Q); ((1, 3), 2%Q); ((2, 3), 3%Q)]%N; f_ignore := [(0, 1)%N]; f_wmax := 3%Q; f_int := true |}.
+Example C10_ignored_edge_premise_holds :
+  (forall e, In e (g_edges (p_graph (f_base (exIgn 2%Q)))) -> mem_edge e (f_ignore (exIgn 2%Q)) = false ->
+             lookup_q e (f_flow (exIgn 7%Q)) 0%Q = lookup_q e (f_flow (exIgn 2%Q)) 0%Q) /\
+  lookup_q (0, 1)%N (f_flow (exIgn 7%Q)) 0%Q <> lookup_q (0, 1)%N (f_flow (exIgn 2%Q)) 0%Q /\
+  encode_kfd (exIgn 7%Q) = encode_kfd (exIgn 2%Q).
+Proof.
+  assert (H : forall e, In e (g_edges (p_graph (f_base (exIgn 2%Q)))) -> mem_edge e (f_ignore (exIgn 2%Q)) = false ->
+             lookup_q e (f_flow (exIgn 7%Q)) 0%Q = lookup_q e (f_flow (exIgn 2%Q)) 0%Q).
+  { intros e He Hm. cbn in He. destruct He as [<-|[<-|[<-|[<-|[]]]]]; try reflexivity. vm_compute in Hm. discriminate. }
+  split; [exact H|]. split; [vm_compute; discriminate|].
+  exact (C10_ignored_edge_has_no_influence (exIgn 2%Q) (f_flow (exIgn 7%Q)) H).
+Qed.
+Print Assumptions C10_ignored_edge_premise_holds.
+
+(* C10_constraint_rows_cut_off_nothing: all five premises on the diamond, both sides of the equivalence inhabited for k = 2 and
+   both empty for k = 1 (the constraint and the second branch need two paths) *)
+Example C10_cut_off_nothing_premises_hold :
+  PathEncProofs.wf_graph (p_graph (f_base (exI 2))) /\ p_allow_empty (f_base (exI 2)) = false /\
+  (forall u v, In (u, v) (g_edges (p_graph (f_base (exI 2)))) -> (exRank u < exRank v)%nat) /\ (forall v, (exRank v <= 3)%nat) /\
+  (forall c e, In c (p_cons (f_base (exI 2))) -> In e c -> In e (g_edges (p_graph (f_base (exI 2)))) /\ (0 <= elen (f_base (exI 2)) e)%Q) /\
+  (exists a, sat a (encode_kfd (exI 2))) /\ (~ exists a, sat a (encode_kfd (exI 1))).
+Proof.
+  split; [exact ex_wf|]. split; [reflexivity|]. split; [exact ex_rank|]. split; [exact ex_rank_le|]. split; [exact (ex_cons_ok 2)|].
+  split; [exact ex_lp_feasible_2|exact ex_lp_infeasible_1].
+Qed.
+Print Assumptions C10_cut_off_nothing_premises_hold.
